@@ -4,6 +4,7 @@ CONSTANTS
   MaxRec = 2
   MaxEp = 2
   FetchMax = 1
+  WideEvery = 0
   SlowTimeouts = FALSE
   ZombieSteals = FALSE
   MaxTick = 0
